@@ -19,6 +19,7 @@ type Seg struct {
 	Len   *Term
 	Bytes []*Term
 	Zeros bool  // Len zero bytes
+	Stale bool  // Len bytes of unknown content (what a previous user left in a recycled buffer)
 	Min   *Term // the minimal big-endian byte string of the integer Min (Len bytes)
 }
 
@@ -45,6 +46,8 @@ func segsKey(segs []Seg) string {
 			k += "]"
 		} else if g.Zeros {
 			k += "<zeros:" + g.Len.Key() + ">"
+		} else if g.Stale {
+			k += "<stale:" + g.Len.Key() + ">"
 		} else if g.Min != nil {
 			k += "<min:" + g.Min.Key() + ">"
 		} else {
@@ -81,7 +84,7 @@ func (it *Interp) concretise(s AbsSlice) (SliceV, bool) {
 	if sv, ok := it.concretiseInt(s); ok {
 		return sv, true
 	}
-	if len(s.Segs) != 1 || s.Segs[0].Bytes != nil || s.Segs[0].Zeros || s.Segs[0].Min != nil {
+	if len(s.Segs) != 1 || s.Segs[0].Bytes != nil || s.Segs[0].Zeros || s.Segs[0].Stale || s.Segs[0].Min != nil {
 		// several segments of constant length: a fresh array with their bytes (a read-only snapshot)
 		if len(s.Segs) >= 1 {
 			if vals, ok := it.segValues(s.Segs); ok && len(vals) > 0 {
@@ -127,7 +130,7 @@ func (it *Interp) symIndex(v Value, i int) *Cell {
 		return nil
 	}
 	g := s.Segs[0]
-	if g.Bytes != nil || g.Zeros || g.Min != nil || g.Name == "" {
+	if g.Bytes != nil || g.Zeros || g.Stale || g.Min != nil || g.Name == "" {
 		return nil
 	}
 	lo, _ := it.ApplyTerm(g.Len).Bounds()
@@ -461,6 +464,9 @@ func (fr *Frame) unop(x *ssa.UnOp) Value {
 					if lo, _ := it.ApplyTerm(g.Len).Bounds(); lo.Sign() > 0 {
 						return KInt{big.NewInt(0)}
 					}
+				}
+				if g.Stale {
+					return Top{Why: "a byte a previous user left in a recycled buffer"}
 				}
 			}
 			it.abortf("load at %s from a buffer of symbolic length in %s", be.Idx, fr.fn)
@@ -1047,6 +1053,9 @@ func (it *Interp) segValues(segs []Seg) ([]*Term, bool) {
 			return nil, false
 		}
 		n := int(k.Int64())
+		if g.Stale {
+			return nil, false
+		}
 		for i := 0; i < n; i++ {
 			switch {
 			case g.Zeros:
@@ -1128,6 +1137,10 @@ func (it *Interp) splitSegs(segs []Seg, t *Term) (left, right []Seg, ok bool) {
 			case g.Zeros:
 				left = append(append([]Seg{}, segs[:i]...), Seg{Zeros: true, Len: d})
 				right = append([]Seg{{Zeros: true, Len: rem}}, segs[i+1:]...)
+				return dropEmpty(left), dropEmpty(right), true
+			case g.Stale:
+				left = append(append([]Seg{}, segs[:i]...), Seg{Stale: true, Len: d})
+				right = append([]Seg{{Stale: true, Len: rem}}, segs[i+1:]...)
 				return dropEmpty(left), dropEmpty(right), true
 			case g.Bytes != nil:
 				if c, isC := d.IsConst(); isC {
